@@ -300,3 +300,45 @@ Proof.
   unfold st_cp. rewrite D, V, L, B, Hd, Hv. apply es_v0_value_level; try assumption.
   unfold in_bounds in Bd. rewrite L in Bd. exact Bd.
 Qed.
+
+(* ---------------------------------------------------------------- apply_remove and evaluate do not change the recomputation *)
+Lemma filter_idem {A} (p : A -> bool) l : filter p (filter p l) = filter p l.
+Proof. induction l as [|x l IH]; cbn; [reflexivity|]. destruct (p x) eqn:E; cbn; [rewrite E, IH|]; auto. Qed.
+
+(* the end of refine_round (apply_remove: the dead objects leave the container, startNewObjects is re-indexed) keeps the recomputation
+   of the state after the selection loop: es_recompute sums over the live objects only *)
+Theorem es_recompute_apply_remove (F : box -> lv -> Qc) (st1 : state) (k : nat) :
+  es_recompute F (mkState (st_dim st1) (st_version st1) (st_lmin st1) (st_lmax st1) (st_auto st1) (st_single st1) (st_a st1) (st_b st1)
+                          (filter (fun x => negb (a_dead x)) (st_objs st1)) k (st_tree st1) (st_bmax st1) (st_base st1))
+  = es_recompute F st1.
+Proof. unfold es_recompute, es_live, st_cp. cbn [st_objs st_dim st_version st_lmin st_lmax st_base]. rewrite filter_idem. reflexivity. Qed.
+
+(* ExtendSplit.evaluate (compute_solutions on the new objects: register = levelvec_dict, with_benefit) changes neither scheme, box,
+   coarsening value nor liveness of any object: the recomputation of the state is the same *)
+Lemma value_indep (F : box -> lv -> Qc) cp x y : abox y = abox x -> a_coarse y = a_coarse x -> es_area_value F cp y = es_area_value F cp x.
+Proof. intros E1 E2. unfold es_area_value, es_area_parts. rewrite E1, E2. reflexivity. Qed.
+
+Lemma evaluate_new_objs_values (F : box -> lv -> Qc) cp bens l :
+  map (es_area_value F cp) (filter (fun x => negb (a_dead x)) (map (fun x => with_benefit (register cp x) (benefit_of (lookup (abox x) bens 0))) l))
+  = map (es_area_value F cp) (filter (fun x => negb (a_dead x)) l).
+Proof.
+  induction l as [|x l IH]; [reflexivity|]. cbn [map filter].
+  change (a_dead (with_benefit (register cp x) (benefit_of (lookup (abox x) bens 0)))) with (a_dead x).
+  destruct (a_dead x); cbn [negb map]; [exact IH|]. rewrite IH. reflexivity.
+Qed.
+
+Theorem es_recompute_evaluate (F : box -> lv -> Qc) (st : state) bens : es_recompute F (fst (evaluate st bens)) = es_recompute F st.
+Proof.
+  unfold evaluate, es_recompute, es_live, st_cp. cbn [fst st_objs st_dim st_version st_lmin st_lmax st_base].
+  rewrite filter_app, map_app, evaluate_new_objs_values, <- map_app, <- filter_app, firstn_skipn. reflexivity.
+Qed.
+
+(* hence the recomputation after a whole driver step (refine(); evaluate) is the recomputation of the state after the selection loop *)
+Theorem es_recompute_step (F : box -> lv -> Qc) (st : state) inp :
+  exists st1, KeepsLevels st st1 /\ es_recompute F (step st inp) = es_recompute F st1.
+Proof.
+  unfold step, refine_round.
+  set (loop := fold_left _ (seq 0 (length (st_objs st))) (st, [])).
+  exists (fst loop). split; [apply refine_loop_keeps_levels|].
+  destruct loop as [st1 lg] eqn:E. cbn [fst]. rewrite es_recompute_evaluate. apply es_recompute_apply_remove.
+Qed.
